@@ -103,7 +103,17 @@ func TestVerifReplay(t *testing.T) {
 	ob, _ := json.MarshalIndent(ov, "", " ")
 	ovPath := filepath.Join(dir, "overlay.json")
 	os.WriteFile(ovPath, ob, 0644)
-	sh := fmt.Sprintf("#!/bin/sh\n# native replay of a solver counterexample against the real build; exit 0 = reproduced\ncd %s && GOFLAGS=-mod=mod GOPROXY=off GOSUMDB=off GOTOOLCHAIN=local VERIF_ASSIGNMENT=%s timeout 600 go test -vet=off -count=1 -overlay %s -run TestVerifReplay -v %s\n", modDir, cePath, ovPath, pkgPat)
+	crash := "__never__"
+	if v.Label == "panic" && panicClass(v.Detail) != "" {
+		crash = panicClass(v.Detail)
+	}
+	sh := fmt.Sprintf("#!/bin/sh\n# native replay of a solver counterexample against the real build; exit 0 = reproduced\n"+
+		"cd %s && out=$(GOFLAGS=-mod=mod GOPROXY=off GOSUMDB=off GOTOOLCHAIN=local VERIF_ASSIGNMENT=%s timeout 600 go test -vet=off -count=1 -overlay %s -run TestVerifReplay -v %s 2>&1)\n"+
+		"echo \"$out\"\n"+
+		"echo \"$out\" | grep -q 'REPRODUCED: VERIF-ASSERT %s' && exit 0\n"+
+		"# an unrecovered panic in a goroutine crashes the test binary: that is the reproduction of a 'panic' violation\n"+
+		"echo \"$out\" | grep -q '^panic: ' && echo \"$out\" | grep -q '%s' && { echo 'REPRODUCED (process crashed)'; exit 0; }\n"+
+		"exit 1\n", modDir, cePath, ovPath, pkgPat, v.Label, crash)
 	os.WriteFile(filepath.Join(dir, "replay.sh"), []byte(sh), 0755)
 	cmd := exec.Command("timeout", "600", "go", "test", "-vet=off", "-count=1", "-overlay", ovPath, "-run", "TestVerifReplay", "-v", pkgPat)
 	cmd.Dir = modDir
@@ -111,7 +121,26 @@ func TestVerifReplay(t *testing.T) {
 	out, err := cmd.CombinedOutput()
 	os.WriteFile(filepath.Join(dir, "replay.log"), out, 0644)
 	ok := err == nil && strings.Contains(string(out), "REPRODUCED: VERIF-ASSERT "+v.Label)
+	if !ok && v.Label == "panic" && err != nil {
+		// a panic in a goroutine the code under test (or the harness on its behalf) started cannot be recovered by the test
+		// function: the test binary crashes. That IS the reproduction, provided the crash is the same kind of panic.
+		if cls := panicClass(v.Detail); cls != "" && strings.Contains(string(out), "\npanic: ") && strings.Contains(string(out), cls) {
+			os.WriteFile(filepath.Join(dir, "replay.note"), []byte("reproduced: the native test binary crashed with an unrecoverable goroutine panic of the same kind ("+cls+")\n"), 0644)
+			return true, "REPRODUCED (process crashed, unrecovered goroutine panic: " + cls + ")\n" + lastLines(string(out), 4)
+		}
+	}
 	return ok, lastLines(string(out), 6)
+}
+
+// panicClass maps the executor's panic description to the phrase the Go runtime prints for it.
+func panicClass(detail string) string {
+	for _, c := range []string{"index out of range", "nil pointer dereference", "slice bounds out of range", "integer divide by zero",
+		"makeslice: len out of range", "negative shift amount", "interface conversion", "close of closed channel", "send on closed channel", "assignment to entry in nil map"} {
+		if strings.Contains(detail, c) {
+			return c
+		}
+	}
+	return ""
 }
 
 func lastLines(s string, n int) string {
